@@ -112,7 +112,13 @@ storage_set(struct Storage* self, const struct StorageProperties* settings)
     CHECK(settings);
 
     const enum DeviceState previous = self->state;
-    self->state = self->set(self, settings);
+    const enum DeviceState answer = self->set(self, settings);
+    // Rejected settings take a running device out of the running state. As
+    // camera_set does, stop it first so that it finishes and closes its file.
+    if (previous == DeviceState_Running && answer != DeviceState_Armed &&
+        answer != DeviceState_Running)
+        storage_stop(self);
+    self->state = answer;
     EXPECT(DeviceState_Armed == self->state,
            "Expected Armed. Got %s.",
            device_state_as_string(self->state));
